@@ -807,21 +807,26 @@ Proof.
   - split; [simpl; lia | intros k c0 Hk; simpl in Hk; lia].
 Qed.
 
+Lemma all_step : forall s t s', AllInv s -> step s t = Some s' -> AllInv s'.
+Proof.
+  intros s0 t s' [A B C D E F G H I] Hs. constructor.
+  - eapply own_step; eauto.
+  - eapply cov_step; eauto.
+  - eapply unsig_step; eauto.
+  - eapply cons_step; eauto.
+  - eapply cell_step; eauto.
+  - eapply sorted_step; eauto.
+  - eapply exec_step; eauto.
+  - eapply ppubinv_step; eauto.
+  - eapply popinv_step; eauto.
+Qed.
+
 Lemma reach_all : forall c a f progs s, (1 <= c)%nat -> Reach c a f progs s -> AllInv s.
 Proof.
   intros c a f progs s Hc HR.
   apply (inv_reachable st step AllInv (init c a f progs)); auto.
   - apply all_init; exact Hc.
-  - intros s0 t s' [A B C D E F G H I] Hs. constructor.
-    + eapply own_step; eauto.
-    + eapply cov_step; eauto.
-    + eapply unsig_step; eauto.
-    + eapply cons_step; eauto.
-    + eapply cell_step; eauto.
-    + eapply sorted_step; eauto.
-    + eapply exec_step; eauto.
-    + eapply ppubinv_step; eauto.
-    + eapply popinv_step; eauto.
+  - intros; eapply all_step; eauto.
 Qed.
 
 (* ---- exactly once, in order ---- *)
@@ -1006,5 +1011,105 @@ Proof.
   assert (P : AllInv s /\ QuietInv s).
   { apply (inv_reachable st step (fun s => AllInv s /\ QuietInv s) (init c a [] progs)); auto.
     - split; [apply all_init; exact Hc | apply quiet_init].
-    - intros s0 t0 s' [A Q] Hs. split; [|eapply quiet_step; eauto].
-      eapply (reach_all c a [] progs). exact Hc. Abort.
+    - intros s0 t0 s' [A Q] Hs. split; [eapply all_step; eauto | eapply quiet_step; eauto]. }
+  destruct P as [_ Q]. apply (q_join _ Q).
+Qed.
+
+Lemma all_done_thread : forall s t th, all_done s = true -> nth_error (threads s) t = Some th ->
+  tpc th = Idle /\ nth_error (prog th) (opi th) = None.
+Proof.
+  intros s t th H Hn. unfold all_done in H. rewrite forallb_forall in H. specialize (H th (nth_error_In _ _ Hn)).
+  unfold thread_done in H. destruct (tpc th); try discriminate. destruct (nth_error (prog th) (opi th)); [discriminate|auto].
+Qed.
+
+(* at the end of every run, unless the last reset of the counter was a refused launch, every item passed to execute()
+   has been delivered (exactly once by eq_consumed_at_most_once) *)
+Theorem eq_none_stranded_at_end : forall c a f progs s, (1 <= c)%nat -> Reach c a f progs s ->
+  all_done s = true -> stale s = false ->
+  events s = 0 /\ delivered s = map key (cells s) /\
+  (forall t th i, nth_error (threads s) t = Some th -> nth_error (prog th) i = Some OExec -> In (t, i) (delivered s)).
+Proof.
+  intros c a f progs s Hc HR Hd Hst. pose proof (reach_all _ _ _ _ _ Hc HR) as HA.
+  assert (Hev : events s = 0).
+  { destruct (a_own _ HA) as [A0 A1 A2]. destruct (Z.eq_dec (events s) 0) as [E|E]; [exact E|].
+    destruct (owners_exists (threads s)) as (t & th & H & Ho); [rewrite A2; lia|].
+    destruct (all_done_thread _ _ _ Hd H) as [P _]. unfold is_owner in Ho. rewrite P in Ho. discriminate. }
+  assert (L : (length (cells s) <= ndel s)%nat).
+  { destruct (Nat.lt_ge_cases (ndel s) (length (cells s))) as [L|L]; [|exact L]. exfalso.
+    destruct (nth_error (cells s) (ndel s)) as [x|] eqn:Ex; [|apply nth_error_None in Ex; lia].
+    pose proof (c_cover _ (a_cov _ HA) Hev Hst) as TU. rewrite (idle_ndel _ HA Hev) in Ex.
+    pose proof (TU _ _ (Nat.le_refl _) Ex) as S. destruct (a_unsig _ HA _ _ Ex S) as (th & H0 & P & _).
+    destruct (all_done_thread _ _ _ Hd H0) as [Pi _]. destruct P as [P|P]; congruence. }
+  assert (Hdel : delivered s = map key (cells s)) by (unfold delivered; rewrite firstn_all2 by exact L; reflexivity).
+  split; [exact Hev | split; [exact Hdel|]].
+  intros t th i H Hx. rewrite Hdel. destruct (all_done_thread _ _ _ Hd H) as [P N].
+  apply nth_error_None in N. assert (i < length (prog th))%nat by (apply nth_error_Some; congruence).
+  destruct (a_exec _ HA _ _ _ H Hx) as (k & c0 & E & Eo & Es); [left; lia|].
+  apply in_map_iff. exists c0. split; [unfold key; congruence | eapply nth_error_In; eauto].
+Qed.
+
+(* no reachable state is a trap: unless the last reset of the counter was a refused launch, some thread can step
+   as long as some thread is unfinished (in particular a waiting join() is never stuck for ever) *)
+Lemma forallb_false_ex : forall A (f : A -> bool) l, forallb f l = false -> exists t x, nth_error l t = Some x /\ f x = false.
+Proof.
+  induction l as [|y l IH]; simpl; intro H; [discriminate|].
+  destruct (f y) eqn:E.
+  - destruct (IH H) as (t & x & A1 & A2). exists (S t), x. auto.
+  - exists 0%nat, y. auto.
+Qed.
+
+Theorem eq_no_deadlock : forall c a f progs s, (1 <= c)%nat -> Reach c a f progs s ->
+  stale s = false -> all_done s = false -> exists t, step s t <> None.
+Proof.
+  intros c a f progs s Hc HR Hst Hnd. pose proof (reach_all _ _ _ _ _ Hc HR) as HA.
+  destruct (Z.eq_dec (events s) 0) as [Hev|Hev].
+  2:{ destruct (a_own _ HA) as [A0 A1 A2]. destruct (owners_exists (threads s)) as (t & th & H & Ho); [rewrite A2; lia|].
+      exists t. eapply owner_enabled; eauto. }
+  unfold all_done in Hnd. apply forallb_false_ex in Hnd. destruct Hnd as (t & th & Hth & Hd).
+  pose proof (not_owner_of_zero _ _ _ (a_own _ HA) Hev Hth) as NO.
+  unfold thread_done in Hd. unfold is_owner in NO.
+  destruct (tpc th) eqn:Epc; try discriminate.
+  - (* Idle with an op left *)
+    exists t. unfold step. rewrite Hth. unfold step_thread. rewrite Epc.
+    destruct (nth_error (prog th) (opi th)) as [[| |]|]; try discriminate.
+    rewrite g_join, Hev. simpl. discriminate.
+  - (* PPublish: the producer holding the head ticket can move *)
+    destruct (a_ppub _ HA _ _ _ Hth Epc) as (x & Ex & Px & _).
+    destruct (a_pop _ HA) as [PL PP].
+    assert (Lk : (npop s <= tk)%nat).
+    { destruct (Nat.lt_ge_cases tk (npop s)) as [L|L]; [|exact L]. rewrite (PP _ _ L Ex) in Px. discriminate. }
+    assert (Lh : (npop s < length (cells s))%nat).
+    { assert (tk < length (cells s))%nat by (apply nth_error_Some; congruence). lia. }
+    destruct (nth_error (cells s) (npop s)) as [h|] eqn:Eh; [|apply nth_error_None in Eh; lia].
+    pose proof (c_cover _ (a_cov _ HA) Hev Hst _ _ (Nat.le_refl _) Eh) as Sh.
+    destruct (a_unsig _ HA _ _ Eh Sh) as (th1 & H1 & P1 & _).
+    exists (cown h). unfold step. rewrite H1. unfold step_thread.
+    destruct P1 as [P1|P1]; rewrite P1.
+    + rewrite (idle_ndel _ HA Hev). pose proof (c_cap _ (a_cov _ HA)).
+      assert (E : Nat.ltb (npop s) (npop s + cap s) = true) by (apply Nat.ltb_lt; lia). rewrite E. discriminate.
+    + unfold do_signal. destruct (signal_returns_early (events s)); discriminate.
+  - (* PSignal *)
+    exists t. unfold step. rewrite Hth. unfold step_thread. rewrite Epc.
+    unfold do_signal. destruct (signal_returns_early (events s)); discriminate.
+Qed.
+
+(* non-vacuity: a refused launch, a later accepted signal, everything consumed *)
+Definition resume_progs : list (list op) := [[OExec; OSignal; OJoin]].
+Definition resume_sched : list nat := [0; 0; 0; 0; 0; 0; 0; 1; 1; 1; 1; 1; 1; 1; 1; 0]%nat.
+Definition resume_state : st := run st step (init 2 true [true] resume_progs) resume_sched.
+Lemma resume_example : Reach 2 true [true] resume_progs resume_state /\ all_done resume_state = true /\
+  stale resume_state = false /\ delivered resume_state = [(0, 0)]%nat /\
+  (exists th, nth_error (threads resume_state) 0 = Some th /\ results th = [RExec (-1); RSignal 0; RJoin 0]).
+Proof. split; [exists resume_sched; unfold resume_state; reflexivity | vm_compute; repeat split; eauto]. Qed.
+
+(* non-vacuity of the former counter-example: the slower producer holds ticket 0, the consumer launched for ticket 1
+   now keeps its role (it sits in the size()/poll loop) and join() is still waiting *)
+Definition gap_progs : list (list op) := [[OExec; OJoin]; [OExec]].
+Definition gap_sched : list nat := [1; 0; 0; 0; 0; 2; 2; 2; 2; 2; 0]%nat.
+Definition gap_state : st := run st step (init 4 true [] gap_progs) gap_sched.
+Lemma gap_example : Reach 4 true [] gap_progs gap_state /\ events gap_state = 1 /\ stale gap_state = false /\
+  (exists x, nth_error (cells gap_state) 1 = Some x /\ csig x = true /\ returned (threads gap_state) x = true) /\
+  ndel gap_state = 0%nat /\
+  (exists th, nth_error (threads gap_state) 0 = Some th /\ results th = [RExec 0]) /\
+  (exists th, nth_error (threads gap_state) 2 = Some th /\ is_consumer th = true).
+Proof. split; [exists gap_sched; unfold gap_state; reflexivity | vm_compute; repeat split; eauto]. Qed.
